@@ -21,6 +21,8 @@ def main():
     sel = (lambda m, p: a.only in p.name()) if a.only else None
     recs = purity.run(MODULES, eff_seed(), sessions=1 if quick else 12, length=12 if quick else 30, select=sel,
                       sweep=80 if quick else 100000, stability=14 if quick else 60)
+    if not a.only:
+        recs += purity.run_module_stability(MODULES, eff_seed(), per_proc=3 if quick else 8)
     with scratch() as d:
         if not a.only:
             # the repository's own tests as sessions: one event per Procedure they create, one when the test ends
